@@ -46,7 +46,7 @@ Lasts    == IF Small /\ Fam = "retain" THEN {-1, 0, 2} ELSE IF Fam \in {"retain"
 Wins     == IF Small THEN {"none"} ELSE IF Fam \in {"retain", "all"} THEN {"none", "fromPast", "fromFuture", "untilPast", "untilFuture"} ELSE {"none"}
 Payloads == IF Small THEN {"m1"} ELSE {"m1", "m2"}
 (* ttl: -1 = no ttl option, 0 = an explicit ?ttl=0, 3600 = a positive ttl *)
-TTLs     == IF Fam \in {"retain", "all"} THEN {-1, 0, 3600} ELSE {-1}
+TTLs     == IF Fam \in {"retain", "all"} THEN {-1, 0, 3600, 7776000} ELSE {-1}      \* 7776000 s = 90 days: longer than the retention period
 Rts      == IF Fam \in {"retain", "all"} THEN BOOLEAN ELSE {FALSE}
 Users    == [c \in Clients |-> "u-" \o c]
 
@@ -112,8 +112,11 @@ MCPresence == \E c \in Pick(Open), k \in Pick({"kAll", "kWO"}), w \in Pick(Words
 
 MCEnd == \E c \in Pick(Open), how \in Pick({"disconnect", "drop", "cut", "garbage", "panic"}) :
     /\ (Gen = "sim" /\ Fam \notin {"ending"}) => RandomElement(1..4) = 1      \* endings are rarer in long random sessions
-    /\ In({"ending", "presence"}) \/ (Fam \in {"pubsub", "hostile"} /\ how = "drop")
+    /\ In({"ending", "presence"}) \/ (Fam \in {"pubsub", "hostile", "retain"} /\ how = "drop")
     /\ End(c) /\ Emit([n |-> "end", c |-> c, how |-> how])
+
+MCRestart == /\ Fam = "retain" /\ ~Small /\ Len(store[HomeMap["c1"]]) > 0 /\ (Gen = "sim" => RandomElement(1..2) = 1)
+             /\ Restart /\ Emit([n |-> "restart"])
 
 MCHostile == \E c \in Pick(Open), cls \in Pick(HostileClosing \cup HostileSurviving), closed \in BOOLEAN :
     /\ Fam = "hostile"
@@ -126,5 +129,5 @@ MCCluster == \E fn \in Pick({"OnGossip", "OnGossipBroadcast", "OnGossipUnicast",
     /\ ClusterHostile /\ Emit([n |-> "cluster", fn |-> fn, idx |-> i])
 
 MCNext == /\ nops < MaxOps
-          /\ (MCConnect \/ MCSubscribe \/ MCUnsubscribe \/ MCPublish \/ MCPublishVia \/ MCLink \/ MCPresence \/ MCEnd \/ MCHostile \/ MCCluster)
+          /\ (MCConnect \/ MCSubscribe \/ MCUnsubscribe \/ MCPublish \/ MCPublishVia \/ MCLink \/ MCPresence \/ MCEnd \/ MCRestart \/ MCHostile \/ MCCluster)
 =============================================================================
